@@ -43,6 +43,10 @@ class TaskFail(Exception):
     pass
 
 
+class TaskFailBase(BaseException):
+    """a task failure that is not an Exception (like asyncio.CancelledError or a test framework's outcome classes)"""
+
+
 class IterFail(Exception):
     pass
 
@@ -55,11 +59,14 @@ EXEC_LOG = []          # (call_no, task index) appended by the tasks themselves
 EXEC_LOCK = threading.Lock()
 
 
+BASE_FAIL = [False]
+
+
 def task(call_no, i, fails):
     with EXEC_LOCK:
         EXEC_LOG.append((call_no, i))
     if fails:
-        raise TaskFail(i)
+        raise (TaskFailBase if BASE_FAIL[0] else TaskFail)(i)
     return (call_no, i)
 
 
@@ -144,6 +151,14 @@ class InstrumentedInput:
             return delayed(task)(self.call_no, k, k in self.tfail)
         finally:
             self.busy = False
+
+
+class SizedInstrumentedInput(InstrumentedInput):
+    """the same lazy input, but it knows its length (a dataset object, a progress-bar wrapper): Parallel learns the
+    number of tasks up front and must consume it no differently"""
+
+    def __len__(self):
+        return self.n
 
 
 class VerifBackend(ParallelBackendBase):
@@ -358,7 +373,7 @@ class Driver:
     def _exc_obs(e):
         if isinstance(e, BackendRefusal):
             return ["raised", "backend", 0]
-        if isinstance(e, TaskFail):
+        if isinstance(e, (TaskFail, TaskFailBase)):
             return ["raised", "task", e.args[0]]
         if isinstance(e, IterFail):
             return ["raised", "iter", 0]
@@ -472,7 +487,8 @@ class Driver:
             self.par.timeout = timeout
         self.call_no += 1
         self.cur_timeout = timeout
-        it = InstrumentedInput(self.call_no, N, ifail, tfail)
+        it = (SizedInstrumentedInput if self.case.get("sized_inputs") and ifail is None else InstrumentedInput)(
+            self.call_no, N, ifail, tfail)
         self.inputs.append(it)
         self.iter_raises_seen = 0
         self._send(("call", it))
@@ -558,7 +574,7 @@ class Driver:
                     out = e
             else:
                 out = ExtFail(1000 + tid)
-            state["outcome"] = out.args[0] if isinstance(out, (TaskFail, ExtFail)) else (
+            state["outcome"] = out.args[0] if isinstance(out, (TaskFail, TaskFailBase, ExtFail)) else (
                 None if not isinstance(out, BaseException) else -1)
             state["ran"] = True
             try:
@@ -641,7 +657,7 @@ class Driver:
                             out = b["func"]()
                         except BaseException as e:  # noqa
                             out = e
-                        st["outcome"] = out.args[0] if isinstance(out, (TaskFail, ExtFail)) else (
+                        st["outcome"] = out.args[0] if isinstance(out, (TaskFail, TaskFailBase, ExtFail)) else (
                             None if not isinstance(out, BaseException) else -1)
                         try:
                             b["cb"](out)
@@ -843,6 +859,7 @@ def main():
             continue
         case = json.loads(line)
         del EXEC_LOG[:]
+        BASE_FAIL[0] = bool(case.get("base_fail"))
         d = Driver(case)
         try:
             if case.get("mode") == "replay":
